@@ -670,7 +670,8 @@ func (s *ClientSession) notifyDoResultSucc() {
 	}
 
 	//pull有可能还需要小包发送，不使用缓存
-	if s.sessionStat.BaseType() == base.SessionBaseTypePushStr {
+	if s.sessionStat.BaseType() == base.SessionBaseTypePushStr && s.option.WriteBufSize > 0 {
+		// 注意，WriteBufSize为0表示不使用发送缓冲，此时不能调用ModWriteBufSize（bufio对0会使用默认的4096大小）
 		s.conn.ModWriteBufSize(s.option.WriteBufSize)
 	}
 
